@@ -342,7 +342,22 @@ impl<'tcx> Dumper<'tcx> {
             vv.push(("idx", J::Int(vi.as_u32() as i128)));
             if adt.is_enum() {
                 let d = adt.discriminant_for_variant(tcx, vi);
-                vv.push(("discr", J::UInt(d.val)));
+                if d.ty.is_signed() {
+                    // sign-extend from the discriminant type's width
+                    let bits = match d.ty.kind() {
+                        ty::Int(it) => it.bit_width().unwrap_or(64) as u32,
+                        _ => 64,
+                    };
+                    let v = d.val;
+                    let sv: i128 = if bits < 128 && (v >> (bits - 1)) & 1 == 1 {
+                        (v as i128) - (1i128 << bits)
+                    } else {
+                        v as i128
+                    };
+                    vv.push(("discr", J::Int(sv)));
+                } else {
+                    vv.push(("discr", J::UInt(d.val)));
+                }
             }
             let mut fields = vec![];
             for f in var.fields.iter() {
